@@ -19,10 +19,11 @@ def sh(cmd, **kw):
 
 def main():
     wt, n, prop = sys.argv[1], sys.argv[2], sys.argv[3]
-    extra = sys.argv[4:]
+    extra = [a for a in sys.argv[4:] if not a.startswith("--tag=")]
+    tag = next((a.split("=", 1)[1] for a in sys.argv[4:] if a.startswith("--tag=")), "")
     out = os.path.join(wt, "out", n)
     patch = os.path.join(out, "patch.diff")
-    demos = [f for f in os.listdir(out) if f.startswith("seed_demo") or f.startswith("demo_")]
+    demos = sorted([f for f in os.listdir(out) if f.startswith("seed_demo") or f.startswith("demo_")], key=lambda f: (not f.endswith(".sh"), f))
     assert os.path.exists(patch) and demos, (patch, demos)
     demo = demos[0]
     tgt = os.path.join(wt, "target")
@@ -88,7 +89,9 @@ def main():
     notes = open(os.path.join(out, "notes.md")).read() if os.path.exists(os.path.join(out, "notes.md")) else ""
     meta["needs_to_manifest"] = ""
     # --- 3. keep it ------------------------------------------------------------------------------------
-    dest = os.path.join(ROOT, "seeded", f"{prop}-{n}")
+    dest = os.path.join(ROOT, "seeded", f"{prop}-{tag + '-' if tag else ''}{n}")
+    if tag:
+        meta["round"] = tag
     if confirmed:
         os.makedirs(dest, exist_ok=True)
         shutil.copy(patch, os.path.join(dest, "patch.diff"))
